@@ -417,6 +417,36 @@ def ob_interval_siblings(ctx, res):
                     continue
                 fl = {x["name"]: origin(f_, x["e"]) if x.get("e") is not None and not x.get("shorthand") else origin(f_, x["e"]) if x.get("e") is not None else x["name"] for x in lit[0]["fields"]}
                 sig.append(([origin(f_, x) for x in sc[0]["args"][2:]], {k: re.sub(r"\bp0\b|self", "SELF", v) for k, v in fl.items() if k in ("blocks", "start", "end", "chrom", "expected_chrom")}))
+            # the blocks handed to the iterator: the result of the one search (compared above), whatever follows it
+            def _search_tok(v):
+                i = v.find("search_cir_tree(")
+                if i < 0:
+                    return v
+                d, j = 0, i + len("search_cir_tree")
+                while j < len(v):
+                    d += v[j] == "("
+                    d -= v[j] == ")"
+                    j += 1
+                    if d == 0:
+                        break
+                return v[:i] + "SEARCH" + v[j:]
+            for sg in sig:
+                if sg is not None:
+                    for k_, v_ in list(sg[1].items()):
+                        sg[1][k_] = [_search_tok(x) for x in v_] if isinstance(v_, list) else _search_tok(v_)
+            # the index searched: which index function with which argument (how its error is mapped is not part of the comparison)
+            unk = False
+            for sg in sig:
+                if sg is None:
+                    continue
+                mi = re.search(r"\b(zoom_cir_tree|full_data_cir_tree)\(([^()]*)\)", sg[0][0]) if sg[0] else None
+                if mi:
+                    sg[0][0] = "%s(%s)" % (mi.group(1), mi.group(2))
+                else:
+                    unk = True
+            if None not in sig and unk and sig[0] != sig[1]:
+                res.undecided("intervalSiblings/%s/%s" % (ty, a), fb, "%s and %s are spelled differently and the index they search was not recognised (%s vs %s)" % (a, b, sig[0][0], sig[1][0]))
+                continue
             if None in sig:
                 res.undecided("intervalSiblings/%s/%s" % (ty, a), fb, "%s and %s are spelled differently and their shape was not recognised" % (a, b))
             elif sig[0] != sig[1]:
@@ -657,6 +687,17 @@ def _field_from_open(fn, lit):
     return False
 
 
+def _field_src(fn, e):
+    """normal form of a struct field initialiser; a plain local bound once by `let x = <init>;` (also an init with `?`) is replaced by its init"""
+    from ..astq import upn, binding_before
+    t = upn(fn, e)
+    if re.fullmatch(r"[a-z_]\w*", t):
+        b = binding_before(fn, t, e)
+        if b is not None and b[0] == "let" and b[2] == () and b[1].get("init") is not None:
+            t = upn(fn, b[1]["init"])
+    return re.sub(r"\.clone\(\)|&", "", t)
+
+
 def ob_reopen(ctx, res):
     """C03-R1: a reopened reader reads the same file with the same info and independent position"""
     RO = "bigtools/src/utils/file/reopen.rs"
@@ -678,13 +719,19 @@ def ob_reopen(ctx, res):
     for file, ty in ((RW, "BigWigRead"), (RB, "BigBedRead")):
         r = ctx.ast.fn(file, "reopen", impl=ty)
         lit = [n for n in walk_no_nested_fn(r.body) if n.k == "struct" and n["path"].endswith(ty)]
-        f = {x["name"]: up(strip(x["e"])) for x in lit[0]["fields"]} if lit else {}
-        if f.get("info") != "self.info" or f.get("read") != "self.read.reopen()?":
+        f = {x["name"]: _field_src(r, x["e"]) for x in lit[0]["fields"]} if lit else {}
+        if not lit:
+            res.undecided("reopen/%s" % ty, r, "no %s literal in reopen()" % ty)
+        elif f.get("info") != "self.info" or f.get("read") != "self.read.reopen()?":
             res.fail("reopen/%s" % ty, r, "%s::reopen must clone the info and reopen the reader; got %s" % (ty, f))
         else:
             res.ok(r, "%s::reopen: info cloned, reader reopened" % ty)
     c = ctx.ast.fn(R, "reopen", impl="CachedBBIFileRead")
-    if "read: self.read.reopen()?" not in up(c.body):
+    clit = [n for n in walk_no_nested_fn(c.body) if n.k == "struct" and n["path"].split("::")[-1] in ("Self", "CachedBBIFileRead")]
+    cf = {x["name"]: _field_src(c, x["e"]) for x in clit[0]["fields"]} if clit else {}
+    if not clit:
+        res.undecided("reopen/cached", c, "no CachedBBIFileRead literal in reopen()")
+    elif cf.get("read") != "self.read.reopen()?":
         res.fail("reopen/cached", c, "CachedBBIFileRead::reopen must reopen the wrapped reader")
     else:
         res.ok(c, "CachedBBIFileRead::reopen: wrapped reader reopened, caches cloned (values are immutable: C03-C1)")
